@@ -1,7 +1,7 @@
-\* representative quick configuration (checks/C06.py generates one cfg per location x expire x jar from lib/sesslib.py)
+\* two browsers, theft / shared sessions (checks/C06.py generates one cfg per location x expire x jar from lib/sesslib.py)
 SPECIFICATION Spec
 CONSTANTS
-  Browsers = {0}
+  Browsers = {0,1}
   Keys = {"a"}
   CLoc = "both"
   CHow0 = 1
@@ -9,13 +9,13 @@ CONSTANTS
   CPol = FALSE
   Vals = {1}
   Ages = {50}
-  Hows = {0,2}
-  OpKinds = {"set","erase","clear","expose","hide","age","how","srv","reset"}
-  Advances = {3,40,99,101}
+  Hows = {0}
+  OpKinds = {"set","clear","reset","how"}
+  Advances = {40,101}
   WfIds = {1,2,3,4,5,6,7,8,9,10,11,12,13,14}
   JunkIds = {901}
   MaxReq = 2
-  MaxOps = 2
+  MaxOps = 1
   MaxTamper = 1
 VIEW View
 INVARIANTS Carry NoForeign Dead SidForm Exposed JarLeft
